@@ -562,8 +562,8 @@ pub fn encode_json_value_to_metadatum(
                 let mut map = MetadataMap::new();
                 for (raw_key, value) in json_obj {
                     let key = if schema == MetadataJsonSchema::BasicConversions {
-                        match raw_key.parse::<i128>() {
-                            Ok(x) => TransactionMetadatum::new_int(&Int(x)),
+                        match Int::from_str(&raw_key) {
+                            Ok(x) => TransactionMetadatum::new_int(&x),
                             Err(_) => encode_string(raw_key, schema)?,
                         }
                     } else {
